@@ -25,6 +25,7 @@ type tfFeed struct {
 	C     int  `json:"c"`
 	Multi bool `json:"multi,omitempty"`
 	Dump  bool `json:"dump,omitempty"`
+	Cp    bool `json:"cp,omitempty"` // with a CheckpointPrefix: the feed persists a checkpoint when it ends
 }
 
 type tfAction struct {
@@ -192,7 +193,11 @@ func runFeedScenario(c tfCase) (res shutResult) {
 		if f.Dump {
 			backfill = 0
 		}
-		col, err := w.startFeed(FeedCfg{H: f.H, C: f.C, Multi: f.Multi}, backfill, f.Dump, "")
+		prefix := ""
+		if f.Cp {
+			prefix = "cp16"
+		}
+		col, err := w.startFeed(FeedCfg{H: f.H, C: f.C, Multi: f.Multi}, backfill, f.Dump, prefix)
 		if err != nil {
 			bad("tf.start", "StartDCPFeed %+v failed: %v", f, err)
 			return
@@ -471,6 +476,7 @@ func genFeedCase(rt *rapid.T) tfCase {
 		f := tfFeed{H: rapid.IntRange(0, c.Handles-1).Draw(rt, "feed.h"), C: rapid.IntRange(0, c.Colls-1).Draw(rt, "feed.c")}
 		f.Multi = chance(rt, 25, "feed.multi")
 		f.Dump = !f.Multi && chance(rt, 15, "feed.dump")
+		f.Cp = chance(rt, 30, "feed.cp")
 		c.Feeds = append(c.Feeds, f)
 	}
 	na := rapid.IntRange(1, 9).Draw(rt, "nactions")
